@@ -19,6 +19,7 @@ def gen_graphs(r, tier):
 class C11(Prop):
     id = "C11"
     lean_modules = ["Fan2go.Props.C11"]
+    fact_modules = ["Fan2go.Props.Facts"]
     rule = ("config: abstract configurations rendered to YAML in the documented spellings and taken through the real path "
             "viper -> LoadConfig -> Validate (file with real permissions): curve graphs up to 8 nodes (DAGs, planted cycles of "
             "every length 1..8, dangling references), six function types + unsupported, 0/1/many members, steps with 0/1/many "
@@ -31,6 +32,27 @@ class C11(Prop):
                    "undecodable documents end `config validate` in ui.Fatal (a panic, exit status 2) instead of a validation error: outside the property (which is about accepted configurations)"]
     streams = [Stream("config", gen_cfg, parallel=8, timeout=1800), Stream("graphs", gen_graphs, parallel=8, timeout=1800)]
 
+    @staticmethod
+    def parse_dump(d):
+        """sections of the canonical dump of the DECODED configuration: ids, backends per entry, references"""
+        def elems(sec, sep):
+            return sec.split(sep)[1:]
+        secs = d.split("!")
+        if len(secs) != 3:
+            return None
+        S, C, F = secs[0][1:], secs[1][1:], secs[2][1:]
+        out = {"sensors": [], "curves": [], "fans": []}
+        for e in elems(S, ";"):
+            sid, _, items = e.partition(":")
+            out["sensors"].append((sid, [x for x in items.split(",") if x]))
+        for e in elems(C, ";"):
+            cid, _, items = e.partition(":")
+            out["curves"].append((cid, [x for x in items.split(",") if x]))
+        for e in elems(F, ";"):
+            fid, _, items = e.partition(":")
+            out["fans"].append((fid, [x for x in items.split(",") if x]))
+        return out
+
     def oracle(self, name, ops, go):
         out = []
         for cops, cgo in cases(ops, go):
@@ -38,6 +60,39 @@ class C11(Prop):
             for i, (op, g) in enumerate(zip(cops, cgo)):
                 if op.startswith("cfg.load"):
                     verdict = kv(g).get("verdict")
+                    if verdict == "ok":
+                        d = self.parse_dump(kv(g).get("dump", ""))
+                        bad = None
+                        if d:
+                            for sec in ("sensors", "curves", "fans"):
+                                ids = [x[0] for x in d[sec]]
+                                if len(ids) != len(set(ids)):
+                                    bad = f"accepted configuration has duplicate {sec[:-1]} ids {ids}"
+                            cids = {x[0] for x in d["curves"]}
+                            sids = {x[0] for x in d["sensors"]}
+                            for fid, items in d["fans"]:
+                                backends = [x for x in items if x[0] in "hfc" and x[1:2] == "("]
+                                if len(backends) != 1:
+                                    bad = f"accepted configuration has fan '{fid}' with {len(backends)} backends"
+                                for x in items:
+                                    if x.startswith("k(") and x[2:-1] not in cids:
+                                        bad = f"accepted configuration has fan '{fid}' whose curve '{x[2:-1]}' does not resolve"
+                            for cid, items in d["curves"]:
+                                if len(items) != 1:
+                                    bad = f"accepted configuration has curve '{cid}' with {len(items)} sub-configurations"
+                                for x in items:
+                                    if x[:2] in ("L(", "P(") and x[2:-1].split("|")[0] not in sids:
+                                        bad = f"accepted configuration has curve '{cid}' whose sensor does not resolve"
+                                    if x.startswith("F("):
+                                        for m in x[2:-1].split("|")[1].split("/")[1:]:
+                                            if m not in cids:
+                                                bad = f"accepted configuration has function curve '{cid}' whose member '{m}' does not resolve"
+                            for sid, items in d["sensors"]:
+                                if len(items) != 1:
+                                    bad = f"accepted configuration has sensor '{sid}' with {len(items)} backends"
+                        if bad:
+                            out.append(viol(bad, cops, cgo, upto=i))
+                            break
                 elif op.startswith("cfg.run") and verdict == "ok":
                     run = kv(g).get("run", "")
                     if run.startswith("panic") or run == "hang":
